@@ -124,10 +124,11 @@ def run(ctx):
     api = dict(zip(names, pool.map("mc.props.c19:api_rows", [ins[n] for n in names], timeout=120)))
     # base runs
     base_jobs, meta = [], []
-    for n in names:
+    flagsets = [[]] if ctx.tier == "quick" else [[], ["--verbose"], ["--quiet"]]
+    for n, flags in [(n, f) for n in names for f in flagsets]:
         for ch in ("path", "dash", "noarg"):
             for fmt in ("json", "csv"):
-                args = ["report"] + (["--csv"] if fmt == "csv" else [])
+                args = flags + ["report"] + (["--csv"] if fmt == "csv" else [])
                 job = {"files": {}}
                 if ch == "path":
                     job["files"] = {"in.tjp": ins[n]}
@@ -138,12 +139,12 @@ def run(ctx):
                         args.append("-")
                 job["args"] = args
                 base_jobs.append(job)
-                meta.append((n, ch, fmt))
+                meta.append((n, ch, fmt) if not flags else (n, ch, fmt, flags[0]))
     base_res = pool.map("mc.cli.jobs:cli_job", base_jobs, timeout=300, chunk=1)
     outputs = {}
     dev_jobs, dev_meta = [], []
     for job, m, res in zip(base_jobs, meta, base_res):
-        n, ch, fmt = m
+        n, ch, fmt = m[:3]
         st.evaluations += 1
         st.transitions += len(res["trace"])
         st.states.add(hash(res["stdout"]))
@@ -153,8 +154,11 @@ def run(ctx):
             return 3
         for c, d in verdict_good(res, fmt, api[n]["rows"], ins[n]):
             st.by_clause[c] = st.by_clause.get(c, 0) + 1
-            ctx.violation(c, f"{n}-{ch}-{fmt}", {"detail": f"[{n} via {ch}, {fmt}] {d}", "job": _printable(job), "input": n})
+            ctx.violation(c, "-".join(m), {"detail": f"[{n} via {ch}, {fmt}{' ' + m[3] if len(m) > 3 else ''}] {d}", "job": _printable(job), "input": n})
         outputs[m] = res["stdout"]
+        if len(m) > 3 and res["stdout"] != outputs.get(m[:3]):
+            st.by_clause["flags"] = st.by_clause.get("flags", 0) + 1
+            ctx.violation("flags", "-".join(m), {"detail": f"[{m}] stdout with global flag {m[3]} differs from the plain run", "job": _printable(job), "input": n})
         for k, lst in J.listing_points(res["trace"]):
             for perm in J.perms(len(lst)):
                 dj = dict(job, script={k: {"act": "go", "order": perm}}, expect={k: ["scandir", next(e["path"] for e in res["trace"] if e["k"] == k)]})
@@ -176,7 +180,7 @@ def run(ctx):
     # listing-order deviations
     dev_res = pool.map("mc.cli.jobs:cli_job", dev_jobs, timeout=300, chunk=1, order=ctx.order(len(dev_jobs)))
     for job, (m, k, lst, perm), res in zip(dev_jobs, dev_meta, dev_res):
-        n, ch, fmt = m
+        n, ch, fmt = m[:3]
         st.evaluations += 1
         st.transitions += len(res["trace"])
         st.states.add(hash(res["stdout"]))
